@@ -1,0 +1,83 @@
+//go:build verif
+
+// Package verifhook provides verification hook points.
+//
+// With the "verif" build tag, a verification harness can register an action
+// for a named point (count, yield, sleep or block on a gate) and a recorder
+// for named events.
+package verifhook
+
+import (
+	"sync"
+	"sync/atomic"
+)
+
+// Enabled reports whether hooks are compiled in.
+const Enabled = true
+
+var (
+	mtx     sync.RWMutex
+	points  = map[string]func(){}
+	events  = map[string]func(args ...any){}
+	counter sync.Map // name -> *atomic.Int64
+)
+
+// SetPoint registers (or with nil removes) the action for a point.
+func SetPoint(name string, fn func()) {
+	mtx.Lock()
+	if fn == nil {
+		delete(points, name)
+	} else {
+		points[name] = fn
+	}
+	mtx.Unlock()
+}
+
+// SetEvent registers (or with nil removes) the recorder for an event.
+func SetEvent(name string, fn func(args ...any)) {
+	mtx.Lock()
+	if fn == nil {
+		delete(events, name)
+	} else {
+		events[name] = fn
+	}
+	mtx.Unlock()
+}
+
+// Hits returns how many times the point or event was reached.
+func Hits(name string) int64 {
+	if v, ok := counter.Load(name); ok {
+		return v.(*atomic.Int64).Load()
+	}
+	return 0
+}
+
+func hit(name string) {
+	v, ok := counter.Load(name)
+	if !ok {
+		v, _ = counter.LoadOrStore(name, new(atomic.Int64))
+	}
+	v.(*atomic.Int64).Add(1)
+}
+
+// Point marks a named point in the code.
+func Point(name string) {
+	hit(name)
+	mtx.RLock()
+	fn := points[name]
+	mtx.RUnlock()
+	if fn != nil {
+		fn()
+	}
+}
+
+// Event reports a named event with arguments.
+func Event(name string, args ...any) {
+	hit(name)
+	mtx.RLock()
+	fn := events[name]
+	mtx.RUnlock()
+	if fn != nil {
+		fn(args...)
+	}
+}
